@@ -64,7 +64,7 @@ def parse_reg_default(out):
 def check_C02(ctx):
     r = ctx.rng
     cases = []; worlds = []
-    for k in range(ctx.scale(220, 6000)):
+    for k in range(ctx.scale(600, 8000)):
         w = gen.world(r, envelope=r.random() < 0.5, fancy=r.choice([0, 0.2, 0.4]))
         f = files_of(r, w)
         days = [h for h, _ in log_days(w)]
@@ -81,7 +81,7 @@ def check_C02(ctx):
     cli_diff(ctx, cases, tag="C02:")
     # the property's clauses on the implementation's own output (plain names, exact-envelope numbers)
     pc = []; metas = []
-    for k in range(ctx.scale(150, 4000)):
+    for k in range(ctx.scale(400, 6000)):
         w = simple_world(r, envelope=True, pathy=0.2)
         f = files_of(r, w)
         pc.append(dict(files=f, cmd="reg", **NOCOLOR)); metas.append(w)
@@ -189,7 +189,7 @@ def check_C03(ctx):
         ctx.nontriv(log)
     ctx.notes["exhaustive_path_sets"] = dict(segments="ab", max_depth=3, max_paths=ctx.scale(3, 4), sets=len(sets), every_second_3_set_only=(ctx.tier == "quick"))
     # random: deeper, shared prefixes, forks below chains, empty segments, single element with a book
-    for k in range(ctx.scale(250, 8000)):
+    for k in range(ctx.scale(700, 10000)):
         w = simple_world(r, envelope=True, pathy=1.0)
         f = files_of(r, w)
         x = r.choice(gen.element_names(w) or ["x"])
@@ -276,7 +276,7 @@ def tie_world(r):
 def check_C05(ctx):
     r = ctx.rng
     cases = []
-    for k in range(ctx.scale(60, 1500)):
+    for k in range(ctx.scale(200, 2500)):
         book, log = tie_world(r)
         f = {"food.yaml": gen.render_items(r, book), "log.yaml": gen.render_items(r, log)}
         for cmd in ALL_CMDS:
@@ -357,7 +357,7 @@ def check_C06(ctx):
     book = b"bread:\n  kcal: 250\n  fat: 1\ntea:\n  kcal: 2\nmeat/veal:\n  kcal: 100\n  prot: 20\n"
     bounds = [None] + win
     tzs = [("UTC", 0), ("America/New_York", -18000), ("Asia/Tokyo", 32400)] + ([("Pacific/Kiritimati", 50400), ("Etc/GMT+12", -43200)] if ctx.tier == "thorough" else [])
-    nlogs = ctx.scale(6, 40)
+    nlogs = ctx.scale(10, 50)
     cases = []; pairs = []     # pairs: (index of the period case, index of the deleted-file case)
     for ln in range(nlogs):
         n = r.randint(4, 8)
@@ -466,7 +466,7 @@ def check_C07(ctx):
     r = ctx.rng
     cases = []; worlds = []
     CM = ["totals", "reg", "reg-sx", "reg-sxg", "bal", "bal-sx", "quantity", "csv-log", "element-total", "csv-db-resolved", "summary", "unresolved", "csv-db", "stats", "reg-csv"]
-    for k in range(ctx.scale(120, 4000)):
+    for k in range(ctx.scale(350, 6000)):
         w = simple_world(r, envelope=True, pathy=0.15)
         f = files_of(r, w)
         els = gen.element_names(w) or ["x"]
@@ -614,7 +614,7 @@ def all_command_forms(r, f, x=b"kcal", day=b"2021/01/21"):
 def check_C08(ctx):
     r = ctx.rng
     cases = []
-    for k in range(ctx.scale(150, 6000)):
+    for k in range(ctx.scale(300, 8000)):
         w = gen.world(r, envelope=r.random() < 0.3, fancy=0.3, cycles=r.choice([0, 0, 0.3]))
         f = files_of(r, w)
         which = r.random()
@@ -682,7 +682,7 @@ def check_C12(ctx):
     book = b"bread:\n  kcal: 250\n  fat: 1\ntea:\n  kcal: 2\nmeat/veal:\n  kcal: 100\n  prot: 20\nmeat/pork:\n  kcal: 0.5\n"
     foods = ["bread", "tea", "meat/veal", "meat/pork", "water", "kcal", "sweets/cake"]
     cases = []; triples = []
-    for k in range(ctx.scale(60, 2500)):
+    for k in range(ctx.scale(200, 4000)):
         nb = r.randint(2, 6)
         days = gen.day_list(r, nb, sorted_=r.random() < 0.5, repeat=0.3)
         blocks = [gen.render_items(r, day_block(r, d, foods), crlf=False, final_newline=True) for d in days]
@@ -738,7 +738,7 @@ def check_C12(ctx):
 def check_C13(ctx):
     r = ctx.rng
     cases = []; metas = []
-    for k in range(ctx.scale(250, 8000)):
+    for k in range(ctx.scale(700, 10000)):
         w = gen.world(r, envelope=r.random() < 0.3, fancy=r.choice([0.3, 0.6, 0.9]))
         if r.random() < 0.4:   # names that need quoting
             extra = r.choice(['a,b', 'say "hi" x', 'x;y', '\u00a0nbsp', '\u3000wide', 'tab\there', 'q"z', 'ü,"ö"x', '\\.', "cr\rmid", "ж,ж", ",", "a,,b"])
@@ -807,7 +807,7 @@ def check_C14(ctx):
     r = ctx.rng
     cases = []; metas = []
     layouts = ["2006/01/02", "2006-01-02", "02.01.2006", "01/02/2006"]
-    for k in range(ctx.scale(250, 8000)):
+    for k in range(ctx.scale(700, 10000)):
         layout = r.choice(layouts)
         foods = [gen.s_name(r, r.choice([0, 0.3, 0.6])) for _ in range(r.randint(1, 5))]
         items = gen.decorate(r, gen.log(r, foods, layout=layout, envelope=r.random() < 0.3, notes=0.3), 0.2)
@@ -853,7 +853,7 @@ def check_C14(ctx):
                 ctx.violation("C14:days-or-foods-changed", "the printed log reads back to other days/foods: %r / %r" % (ra[:3], rb[:3]), rep); continue
             for (_, fn, qa), (_, _, qb) in zip(ra, rb):
                 if isinstance(qa, Fraction) and isinstance(qb, Fraction):
-                    if abs(qa - qb) > Fraction(6, 1000): ctx.violation("C14:quantity-changed", "food %r: %s became %s" % (fn, qa, qb), rep); break
+                    if abs(qa - qb) > Fraction(6, 1000) + abs(qa) / 2 ** 50: ctx.violation("C14:quantity-changed", "food %r: %s became %s" % (fn, qa, qb), rep); break
                 elif qa != qb and not (isinstance(qa, Fraction) or isinstance(qb, Fraction)):
                     ctx.violation("C14:quantity-changed", "food %r: %s became %s" % (fn, qa, qb), rep); break
     return dict(rule="random logs (names with inner punctuation and non-ASCII text, every layout variant, notes of both documented forms, repeated foods, specials) x 4 date formats x "
@@ -866,7 +866,7 @@ def check_C14(ctx):
 def check_C15(ctx):
     r = ctx.rng
     cases = []; groups = []
-    for k in range(ctx.scale(70, 3000)):
+    for k in range(ctx.scale(150, 4000)):
         w = gen.world(r, envelope=r.random() < 0.5, fancy=r.choice([0, 0.3]))
         if r.random() < 0.5: w["log"].append(("heading", "2021/02/02"))      # a day without entries
         f = files_of(r, w)
@@ -1135,7 +1135,7 @@ def check_C17(ctx):
     worlds = []
     small = {"food.yaml": b"bread:\n  kcal: 250\n  fat: 1\ntea:\n  kcal: 2\n", "log.yaml": b"2021/01/21:\n  bread: 2\n  tea: 1\n  water: 3\n2021/01/22:\n  a/b: 1\n  a/c: 2\n"}
     worlds.append(small)
-    for k in range(ctx.scale(2, 40)):
+    for k in range(ctx.scale(5, 60)):
         w = simple_world(r, envelope=True, pathy=0.5); worlds.append(files_of(r, w))
     # a report larger than bufio's 4096-byte buffer (flushes happen in the middle of the run)
     big = {"food.yaml": small["food.yaml"], "log.yaml": b"".join(b"2021/01/%02d:\n  bread: %d\n  tea: 1\n  item%d/x: 2\n" % (d % 28 + 1, d, d) for d in range(60))}
@@ -1206,7 +1206,7 @@ def check_C17(ctx):
 def check_C18(ctx):
     r = ctx.rng
     datas = [b"", b"\n", b"a\n  x 1\n", b"a\n  bad\n", b"a\n  x 1\n  bad\nb\n  y 2\n  worse x\nc\n", b"a\n  x 1\nb\n  y 2", b"  orphan 1\n"]
-    for k in range(ctx.scale(120, 5000)):
+    for k in range(ctx.scale(300, 6000)):
         it, fn = gen.syntax_items(r, bad=r.choice([0, 0, 0.15, 0.4]), fancy=0.2)
         datas.append(gen.syntax_render(it, fn))
     reqs = []; meta = []
